@@ -505,7 +505,9 @@ def ifaceEval (d : Nat) (k : IK) : E → Except Err E
       let pick (kk : IK) : List (E × Option E) :=
         ((as.zip (ifaceEvalListE d kk as)).filter (fun p => !isCoef p.1)).map (fun p => (p.1, okOrNone p.2))
       let body : E :=
-        if vs.isEmpty then one
+        -- a product of coefficients only: its jump / normal derivative vanishes (after the
+        -- `fix:` commit; before it the product itself was returned, as for Average/Minus/Plus)
+        if vs.isEmpty then (if k == .jump || k == .dn then zero else one)
         else match k with
           | .jump | .avg =>
               (match allSome (pick .jump), allSome (pick .avg) with
